@@ -5,7 +5,7 @@ LEVEL = "proof"
 RULE = ("daily runs, matching types current_bar/vwap, auction and bar orders, all three slippage models and rates {0, 0.002, 0.01, 1 tick}, limit == reference, reference at/over "
         "the limits, missing and zero-turnover bars; one evaluation = one trade or matcher call; non-trivial = fill; distinct = by (type, effect, auction, outcome)")
 TRUSTED = ["harness wraps DefaultBarMatcher.match; reference prices come from the generated bundle, not from rqalpha's price board"]
-ASSUMPTIONS = ["minute frequency / next_bar matching not in the stream (daily immediate matching only)",
+ASSUMPTIONS = ["minute frequency / next_bar matching only through the free-running world correspondence (the price monitor is daily)",
                "TickSizeSlippage does not clamp to the band (F20); LimitPriceSlippage crashes on opening orders (F22); an auction order can be re-matched at the close (F18)"]
 
 
@@ -43,7 +43,53 @@ def user_limit_monitor(ctx, tr, ix):
                             % (c["args"][0], c["args"][1], c["when"], t["book"], t["side"], t["price"], want), rp)
 
 
+def carried_limit_monitor(ctx, tr, ix):
+    """the limit an order carries is the caller's limit — moved down to the tick grid when base.round_price is on (model `roundPrice`), never up"""
+    rp = monitors.replay_of(tr)
+    for c in tr.calls:
+        if c["exc"] is not None or c["api"] not in ("order_shares", "order_value", "order_target_percent", "order_target_value", "buy_open", "sell_open", "buy_close", "sell_close", "order", "order_to") \
+                or len(c["args"]) < 3 or not isinstance(c["args"][2], float) or c.get("from_trade_handler"):
+            continue
+        want = match_sync.carried_limit(ix, c["args"][0], c["args"][2])
+        for o in c["orders"]:
+            if o["type"] != "LIMIT":
+                continue
+            ctx.stats["carried_limits_checked"] += 1
+            ctx.stats["carried_limits_moved_by_rounding"] += int(want != c["args"][2])
+            if o["price"] != want:
+                ctx.witness("C05.3", {"kind": "order_limit_not_callers_limit_rounded_down", "round_price": bool((tr.cfg.get("base_extra") or {}).get("round_price")), "raised": o["price"] > c["args"][2]},
+                            "%s%r at %s: the %s order carries limit %r; the caller's limit %r on the tick grid of %r (rounded down) is %r"
+                            % (c["api"], c["args"], c["when"], o["side"], o["price"], c["args"][2], match_sync.tick_size(ix, c["args"][0]), want), rp)
+                return
+
+
+def round_price_corr(ctx):
+    """the real LimitOrder.round_price against the model on random prices and ticks"""
+    import vlib
+    from rqalpha.model.order import LimitOrder
+    corr = ctx.corr("LimitOrder.round_price", "the real method on random limit prices and tick sizes vs model `roundPrice` on the same ten-thousandths")
+    cases = []
+    for _ in range(ctx.n(400, 20000)):
+        tick = ctx.rnd.choice([0.01, 0.001, 1.0, 0.2, 5.0, 0.05, 0.5, 2.0])
+        base = ctx.rnd.choice([ctx.rnd.uniform(0.5, 80), ctx.rnd.uniform(1000, 6000), round(ctx.rnd.uniform(1, 50), 2), float(ctx.rnd.randrange(1000, 5000))])
+        lim = base + ctx.rnd.choice([0, 0, tick * 0.4, tick * 0.6, tick * 0.5, tick * 0.999, 1e-5])
+        cases.append((lim, tick))
+    if not ctx.driver_ok:
+        return
+    reps = vlib.ask_driver(["ROUNDPX %d %d" % (match_sync.tenthousandths(l), match_sync.tenthousandths(t)) for l, t in cases])
+    import decimal
+    for (lim, tick), rep in zip(cases, reps):
+        st = LimitOrder(lim)
+        st.round_price(tick)
+        model = float(decimal.Decimal(int(rep)) / decimal.Decimal(10000))
+        ctx.evaluations += 1
+        if st.get_limit_price() != lim:
+            ctx.nontrivial("round_price", tick, st.get_limit_price() < lim)
+        corr.add(st.get_limit_price() == model, {"limit": lim, "tick": tick, "impl": st.get_limit_price(), "model": model})
+
+
 def run(ctx):
+    round_price_corr(ctx)
     corr = ctx.corr("DefaultBarMatcher.match", "outcome (rest/reject/cancel/fill quantity, price, close-today part, remainder cancel) of every real matcher call vs model `matchOrder` fed with bundle-derived market inputs, bit-exact prices")
     def gen(rnd, k):
         import bundle as B, trading
@@ -53,11 +99,15 @@ def run(ctx):
             f = S["futures"][0]
             f["under_info"] = dict(f["info"])
             f["info"] = dict(f["info"], tick_size=f["info"]["tick_size"] * 5)
-        cfgk = trading.gen_config(rnd, S, {"otp": True, "pre_open_orders": k % 4 == 3, "no_signal": k % 4 == 3})      # every fourth run: orders sent before the open from an event handler
+        cfgk = trading.gen_config(rnd, S, {"otp": True, "pre_open_orders": k % 4 == 3, "no_signal": k % 4 == 3, "off_grid": k % 4 == 2})      # every fourth run: orders sent before the open from an event handler
         if S["futures"] and k % 3 == 1 and "future" in cfgk["accounts"]:
             cfgk["sim"].update(slippage_model="TickSizeSlippage", slippage=rnd.choice([1.0, 2.0]), signal=False)
         return S, cfgk
-    tstream.stream(ctx, ctx.n(60, 3000), None, [monitors.c0506_monitor("C05"), user_limit_monitor], extra_sync=lambda c, tr, ix: match_sync.run_sync(c, corr, tr, ix), gen=gen)
+    tstream.stream(ctx, ctx.n(60, 3000), None, [monitors.c0506_monitor("C05"), user_limit_monitor, carried_limit_monitor], extra_sync=lambda c, tr, ix: match_sync.run_sync(c, corr, tr, ix), gen=gen)
+
+
+    import minute_stream
+    minute_stream.stream(ctx, ctx.n(3, 100), [])       # minute bars, next_bar matching, an order from a scheduled function: the free-running world decides when and at what price it fills
 
 
 def replay(ctx, data):
